@@ -9,3 +9,7 @@ import TsVerif.C09.Props
 #print axioms TsVerif.C09.chars_chunk_indep_port
 #print axioms TsVerif.C09.utf16_decode_encode
 #print axioms TsVerif.C09.utf16be_trail_witness
+#print axioms TsVerif.C09.utf8_decode_encode
+#print axioms TsVerif.C09.utf16_utf8_same_chars
+#print axioms TsVerif.C09.doAdvance_col
+#print axioms TsVerif.C09.column_cache_eq
